@@ -14,6 +14,11 @@ F = {v: k for k, v in FLAGS.items()}
 
 
 def run(prog, chk):
+    utf8_table(prog, chk)
+    _run(prog, chk)
+
+
+def _run(prog, chk):
     chk.explanation = (
         "(R5) the 37 constant KSI_TlvTemplate tables equal reference/schema.json as sets of entries keyed by tag (kind, multiplicity, "
         "constraint flags, value parser / sub-template; order only where FIXED_ORDER). (R6) extractGenerator - the single interpreter of "
@@ -22,7 +27,10 @@ def run(prog, chk):
         "unknown critical / non-critical element): the violating sequence must end in KSI_INVALID_FORMAT and the conforming one in "
         "KSI_OK. (R5) the template graph is acyclic and its depth fits the tracking array. (R1/R2) value parsers: integers longer "
         "than 8 bytes or not minimally encoded, strings without terminator, imprints of unknown algorithm or wrong length are refused "
-        "before a value is stored.")
+        "before a value is stored. (R6) verifyUtf8 is evaluated on byte strings built from the boundary bytes of every byte class "
+        "(00 41 7f | 80 bf | c0 c3 df | e0 ef | f0 f4 | f5 ff): all strings of length 0..2, every lead byte with all combinations of "
+        "good / bad continuation bytes, each with and without the terminating NUL; accepted iff the reference acceptor written from "
+        "the statement accepts (NUL only last, lead byte followed by exactly its number of 80..bf bytes, nothing truncated).")
     chk.not_decided = ["the accepting direction for all trees", "re-serialisation of unknown elements (C11)"]
     chk.rule("C10.schema", "template table equals the reviewed schema", floor=37)
     chk.rule("C10.flags", "every constraint flag is enforced by the template interpreter (accept / reject scenario pairs)", floor=20)
@@ -222,3 +230,87 @@ def run(prog, chk):
     require_chain(chk, "C10.values", fdg, "*" + od, stores_through_param(fdg, od), [
         g_cmp("==", lambda f, x: lvalue_key(x, f) == dl, lambda f, x: "KSI_getHashLength(" in show(f.deep(x), f), "digest length == algorithm's length"),
     ])
+
+
+# ---------------------------------------------------------------------- UTF-8 structure table (R6)
+def ref_utf8_ok(bs):
+    """Reference acceptor written from the statement: NUL only as the last byte; lead bytes 00-7f / c0-df / e0-ef / f0-f4 followed by
+    exactly 0 / 1 / 2 / 3 continuation bytes 80-bf; nothing truncated."""
+    i, n = 0, len(bs)
+    while i < n:
+        b = bs[i]
+        if b == 0 and i + 1 != n:
+            return False
+        if b <= 0x7f:
+            k = 0
+        elif 0xc0 <= b <= 0xdf:
+            k = 1
+        elif 0xe0 <= b <= 0xef:
+            k = 2
+        elif 0xf0 <= b <= 0xf4:
+            k = 3
+        else:
+            return False
+        if i + k >= n and k > 0:
+            return False
+        for j in range(1, k + 1):
+            if not (0x80 <= bs[i + j] <= 0xbf):
+                return False
+        i += k + 1
+    return True
+
+
+def utf8_table(prog, chk):
+    import itertools
+    from ksirules.interp import Interp, Ptr, succeed_model
+    chk.rule("C10.utf8", "verifyUtf8 accepts exactly the well-formed lead/continuation structures (byte-class table)", floor=5)
+    fn = prog.fn("verifyUtf8", "types_base.c")
+    cp, sp, lp = [p["n"] for p in fn.params]
+    R = [0x00, 0x41, 0x7f, 0x80, 0xbf, 0xc0, 0xc3, 0xdf, 0xe0, 0xef, 0xf0, 0xf4, 0xf5, 0xff]
+    seqs = [()]
+    seqs += [(a,) for a in R]
+    seqs += list(itertools.product(R, R))
+    cont = [0x41, 0x7f, 0x80, 0xa0, 0xbf, 0xc0, 0xff, 0x00]
+    for lead in (0xc3, 0xe0, 0xef, 0xf0, 0xf4):
+        seqs += [(lead, a, b) for a in cont for b in cont]
+    for lead in (0xf0, 0xf4, 0xe2):
+        seqs += [(lead, a, b, c) for a in (0x80, 0xbf, 0xc0) for b in (0x80, 0xbf, 0xff, 0x41) for c in (0x80, 0xbf, 0xc3, 0x00, 0x41)]
+    # every sequence once as it is and once followed by the terminating NUL that the string constructor requires
+    allseq = []
+    for s in seqs:
+        allseq.append(tuple(s))
+        allseq.append(tuple(s) + (0,))
+    seen = set()
+    bad = []
+    n = 0
+    for bs in allseq:
+        if bs in seen:
+            continue
+        seen.add(bs)
+        inputs = {cp: Ptr("ctx"), sp: Ptr("S"), lp: len(bs)}
+        for k, b in enumerate(bs):
+            inputs["S[%d]" % k] = b
+        I = Interp(fn, inputs=inputs, call_model=succeed_model(prog), on_unknown="stop", prog=prog, loop_bound=len(bs) + 3)
+        paths = I.run()
+        chk.paths += len(paths)
+        if len(paths) != 1 or paths[0].undetermined:
+            raise AnalysisBroken("verifyUtf8: evaluation not determined for bytes %s: %s" % (["%02x" % b for b in bs], [q.undetermined[:1] for q in paths]))
+        got = paths[0].ret
+        want = ref_utf8_ok(bs)
+        n += 1
+        if (got == 0) != want:
+            bad.append((bs, got))
+    # one obligation per lead-byte class so that a report names the class
+    classes = {"ascii/NUL": lambda b: b[0] <= 0x7f, "stray continuation / invalid lead": lambda b: 0x80 <= b[0] <= 0xbf or b[0] >= 0xf5,
+               "2-byte lead": lambda b: 0xc0 <= b[0] <= 0xdf, "3-byte lead": lambda b: 0xe0 <= b[0] <= 0xef, "4-byte lead": lambda b: 0xf0 <= b[0] <= 0xf4}
+    for cname, pred in classes.items():
+        mine = [(bs, g) for bs, g in bad if bs and pred(bs)]
+        cnt = sum(1 for bs in seen if bs and pred(bs))
+        chk.ob("C10.utf8", "verifyUtf8[%s]" % cname, not mine,
+               "%d byte strings of this class evaluated: accepted iff well formed" % cnt if not mine else
+               "%d of %d byte strings decided wrongly, e.g. %s -> status %s (reference: %s)"
+               % (len(mine), cnt, " ".join("%02x" % b for b in mine[0][0]), hex(mine[0][1]) if isinstance(mine[0][1], int) else mine[0][1],
+                  "well formed" if ref_utf8_ok(mine[0][0]) else "ill formed"), loc=fn.loc(), fn=fn)
+    chk.ob("C10.utf8", "verifyUtf8[empty]", True, "%d byte strings evaluated in total" % n, loc=fn.loc(), fn=fn, nontrivial=False)
+    if n < 300:
+        raise AnalysisBroken("verifyUtf8: only %d byte strings evaluated" % n)
